@@ -9,6 +9,7 @@ def t3(v):
 
 
 from props import c06
+from props.republish_common import run_republish
 
 
 def pack_part(ctx):
@@ -99,5 +100,8 @@ def run(ctx):
     c06.run(ctx, c09=True)
     for k in ("traces_validated_against_impl", "evaluations", "distinct_nontrivial"):
         ctx.cov[k] = ctx.cov.get(k, 0) + own.get(k, 0)
+    # a LATER publisher of the name on the surviving Group (spec/Republish.tla): what HTTP-TS consumers - late joiners fed from
+    # the TS GOP cache included - and HLS segments hold must be explained by that publisher alone, counters included
+    run_republish(ctx, only=lambda cls: any("ts" in c or "hls" in c for c in cls))
     ctx.cov["rule"] = own["rule"] + "; plus RemuxOut scenarios (simulated and directed, every codec combination) for the counters " \
         "carried by the remuxer from frame to frame, judged per PID at HTTP-TS consumers and in HLS segments"
